@@ -6,8 +6,8 @@ func init() {
 		Rule:        "TestC01_Links: a real client with 1-4 calls parked on a real server over a byte pipe, the legacy SSE transport or stateful streamable HTTP (with and without event store); some calls are answered, then the server side goes away without a goodbye (pipe end closed; event stream / response bodies cut with an error or cleanly; later exchanges fail, optionally except SSE POSTs): every pending call completes with an error by itself within 20 virtual minutes, and so does a call started afterwards. rapid draws a schedule (<=40 events, <=12 calls) over call(ctx kind)/release-write(ok|broken|rejected)/respond(result|error|wrong id type|unknown id; also to completed ids)/reader EOF|error/cancel/close/fail-all-writes/sleep for a client session (tools/call) or a server session (roots/list) whose peer is a scripted connection; quiescence (synctest.Wait) after each event (seq) or scheduler-chosen races between events (race). A wire variant (TestC01_Wire) runs the session over the real newline-delimited transport with a raw byte peer that answers outstanding calls in arbitrary order and grouping (single lines, JSON-RPC batches mixed with notifications and stray responses). Oracle: per-id delivery model. Non-trivial = response injected while the call's write is parked, reader failure or Close with >=1 pending call, or a write failure/rejection; distinct by event-kind string.",
 		Assumptions: []string{"peer and transport are scripted (memio.ScriptConn); virtual time via testing/synctest", "bounds: <=12 calls, <=40 events", "'completes twice' would surface as the SDK's own 'retire called twice' panic (process crash -> journalled script)"},
 		LevelText:   "Generated schedules of calls, write completions, responses, faults, cancellations and Close against a per-id delivery model; liveness (no call blocked after Wait) is decided inside a synctest bubble; a -race variant leaves event order to the scheduler.",
-		LevelNote:   "Trusts the delivery model in harness/c01 and synctest's quiescence/deadlock detection. Interleavings inside SDK critical sections are reached only by chance.",
-		Technique:   "schedule-generating property-based testing (rapid + testing/synctest) against a reference delivery model; race-detector variant",
+		LevelNote:   "Trusts the delivery model in harness/c01 and synctest's quiescence/deadlock detection. Interleavings inside SDK critical sections are reached only by chance. Two arrangements (stdio transport with a blocked Write; streamable client told another session id) also run in real time outside a bubble, where a deadlock through a plain mutex is decided from the goroutine dump (DESIGN 2.6c); wall-clock time is never the oracle there either.",
+		Technique:   "schedule-generating property-based testing (rapid + testing/synctest) against a reference delivery model; race-detector variant; two real-time variants with goroutine-dump quiescence",
 		DesignRef:   "DESIGN.md section 3, C01",
 		Runs: []run{
 			{Test: "TestC01_Seq", Quick: 4000, Thorough: 320000},
